@@ -245,6 +245,10 @@ pub fn exec(toks: &[&str]) -> String {
                     } else if e == "n" {
                         notify.notify();
                         settle(&[&c2r, &r2s, &s2c]).await;
+                    } else if let Some(t) = e.strip_prefix('t') {
+                        let Ok(n) = t.parse::<u32>() else { return "bad-op".to_string() };
+                        let mut s = src.0.lock().unwrap();
+                        s.timing = Timing { refresh: n, retry: 300 + n % 7, expire: 7200 + n };
                     } else if e == "ns" {
                         let mut s = src.0.lock().unwrap();
                         s.session = new_session; new_session += 1; s.hist.clear();
@@ -298,6 +302,8 @@ pub fn generate(ctx: &mut Ctx) {
                 evs.push(format!("u{}:{}", if rng.chance(3, 4) { 1 } else { 0 }, if set.is_empty() { "-".into() } else { set.join(",") }));
             }
             if rng.chance(1, 12) { evs.push("ns".into()); }
+            // the source's timing values change too, on a connection that stays open
+            if rng.chance(1, 4) { evs.push(format!("t{}", rng.range(1, 86400))); }
             // the client waits for a Serial Notify (or its refresh timer) before every step but the first
             if !evs.iter().all(|e| e != "s") && rng.chance(4, 5) { evs.push("n".into()); }
             // rarely: a notification before the first step, or two in a row (the step then fails)
